@@ -140,6 +140,9 @@ type CLIOpts struct {
 	FSize  *int64 // RLIMIT_FSIZE; nil = none
 	Env    []string
 	Prefix []string // e.g. strace ... --
+	// StdoutFile: the child's standard output is this file (created, truncated) instead of a pipe, so that
+	// RLIMIT_FSIZE and path-targeted fault injection apply to it; CLIResult.Stdout then holds what the file holds
+	StdoutFile string
 }
 
 // RunCLI runs the freshly built gopatch binary under RLIMIT_CPU (30 s) so that a hang is
@@ -165,6 +168,12 @@ func (c *Ctx) RunCLI(o CLIOpts) *CLIResult {
 	}
 	var so, se bytes.Buffer
 	cmd.Stdout, cmd.Stderr = &so, &se
+	if o.StdoutFile != "" {
+		if f, ferr := os.Create(o.StdoutFile); ferr == nil {
+			cmd.Stdout = f
+			defer func() { f.Close() }()
+		}
+	}
 	cmd.SysProcAttr = &syscall.SysProcAttr{Setpgid: true}
 	// Generous wall-clock guard against a wedged child (e.g. strace stuck on a zombie): its
 	// firing makes the observation inconclusive (HarnessTimeout), never a violation. Hangs of
@@ -183,6 +192,9 @@ func (c *Ctx) RunCLI(o CLIOpts) *CLIResult {
 		}
 	}
 	res := &CLIResult{Stdout: so.Bytes(), Stderr: se.Bytes(), HarnessTimeout: timedOut}
+	if o.StdoutFile != "" {
+		res.Stdout, _ = os.ReadFile(o.StdoutFile)
+	}
 	if timedOut {
 		c.Flake("wall-clock guard fired around a CLI child process")
 	}
